@@ -131,12 +131,21 @@ pub const R_MFROM: usize = 10;
 pub const R_MZEROED: usize = 11;
 pub const R_MFROMITER: usize = 12;
 pub const R_BOWNER_PANIC: usize = 13;
-pub const N_ROOTS: usize = 14;
+/// uniquely held *shared* BytesMut with a front offset (with_capacity(n+4), put n+1, split_to(1) dropped)
+pub const R_MSHARED_OFF: usize = 14;
+/// capacity >= 64 so that size-relative policies are active: BytesMut::with_capacity(128) + put n
+pub const R_MBIG: usize = 15;
+/// Bytes::from(Vec) with len n and capacity 128
+pub const R_BBIG: usize = 16;
+/// frozen unique shared BytesMut with a front offset
+pub const R_BFROZEN_OFF: usize = 17;
+pub const N_ROOTS: usize = 18;
 pub fn root_name(r: usize) -> &'static str {
     [
         "Bytes::new", "Bytes::from_static", "Bytes::from(Vec len==cap)", "Bytes::from(Vec spare)", "Bytes::from(Box<[u8]>)", "Bytes::from_owner",
         "Bytes::copy_from_slice", "Bytes::from(Vec empty, cap 3)", "BytesMut::new", "BytesMut::with_capacity+put", "BytesMut::from(&[u8])", "BytesMut::zeroed",
-        "BytesMut::from_iter", "Bytes::from_owner(as_ref panics)",
+        "BytesMut::from_iter", "Bytes::from_owner(as_ref panics)", "BytesMut shared+unique+offset", "BytesMut::with_capacity(128)+put", "Bytes::from(Vec cap 128)",
+        "Bytes frozen from shared+unique+offset BytesMut",
     ][r]
 }
 
@@ -409,6 +418,28 @@ impl World {
                         R_MFROM => H::M(BytesMut::from(&d[..])),
                         R_MZEROED => H::M(BytesMut::zeroed(n)),
                         R_MFROMITER => H::M(d.iter().cloned().collect::<BytesMut>()),
+                        R_MSHARED_OFF | R_BFROZEN_OFF => {
+                            let mut m = BytesMut::with_capacity(n + 4);
+                            m.put_u8(0x5a);
+                            m.put_slice(&d);
+                            let head = m.split_to(1);
+                            drop(head);
+                            if kind == R_BFROZEN_OFF {
+                                H::B(m.freeze())
+                            } else {
+                                H::M(m)
+                            }
+                        }
+                        R_MBIG => {
+                            let mut m = BytesMut::with_capacity(128);
+                            m.put_slice(&d);
+                            H::M(m)
+                        }
+                        R_BBIG => {
+                            let mut v = Vec::with_capacity(128);
+                            v.extend_from_slice(&d);
+                            H::B(Bytes::from(v))
+                        }
                         _ => return None,
                     })
                 });
